@@ -8,7 +8,7 @@
 package clusters
 
 // HarnessC14ConcurrentPickers: two (quick) / three (thorough) requests pick concurrently from k = 2 / 3 ready endpoints
-// of an explicit subset, from an arbitrary cursor value: for every schedule with at most p preemptions the picks are
+// of an explicit subset, from an arbitrary cursor value or with no cursor for this ready set yet (first picks): for every schedule with at most p preemptions the picks are
 // pairwise different endpoints (each pick gets its own cursor value and all pickers share one cursor), i.e. the
 // distribution is the sequential strict round-robin one.
 // verif:bounds T = k = 2 (quick) / 3 (thorough); cursor any uint64 below 2^64-16; preemption budget 2 / 3
@@ -16,12 +16,14 @@ func HarnessC14ConcurrentPickers() {
 	k := vbound(2, 3)
 	c, eps := c14Cluster(k)
 	s := &endpointPickStrategy{cluster: c, upstreams: c14NamesN(k)}
-	if _, err := s.Pop(); err != nil {
-		vfail("C14/pop-fails-with-ready-endpoints")
-	}
-	c0 := nondetUint64("c0")
-	vassume(c0 < 1<<64-16)
-	c14SetCursor(c, c0)
+	if !nondetBool("noCursorYet") {
+		if _, err := s.Pop(); err != nil {
+			vfail("C14/pop-fails-with-ready-endpoints")
+		}
+		c0 := nondetUint64("c0")
+		vassume(c0 < 1<<64-16)
+		c14SetCursor(c, c0)
+	} // else: the pickers race on the creation of the cursor of this ready set
 	picked := make([]*EndpointInfo, k)
 	for i := 0; i < k; i++ {
 		i := i
